@@ -47,6 +47,9 @@ def build(rnd, J_list=None, nres=None, beyond=False, pairs_forced=None):
     pairs = list(ampkit.PAIRS)
     nres = nres or rnd.choice([1, 2, 3])
     chosen = list(pairs_forced) if pairs_forced else rnd.sample(pairs, nres)
+    if beyond == "far":  # heavy spectator of the first chain: m_k d > sqrt(5.1) makes P_3(q0^2 d^2) < 0 reachable
+        mf[ampkit.PAIRS[chosen[0]][2]] = rnd.uniform(0.85, 1.2)
+        M0 = sum(mf.values()) + rnd.uniform(0.8, 2.0)
     res = {}
     for n, pr in enumerate(chosen):
         i, j, k = ampkit.PAIRS[pr]
@@ -55,10 +58,11 @@ def build(rnd, J_list=None, nres=None, beyond=False, pairs_forced=None):
         mass = rnd.uniform(hi + 0.02, hi + 0.15) if (beyond and n == 0) else rnd.uniform(lo + 0.05, hi + 0.15)
         if beyond == "far" and n == 0:
             # odd J, nominal mass so far beyond the kinematic limit that P_J(q0^2 d^2) < 0 (J=1: q0^2 < -1/d^2; J=3: q0^2 d^2 < -5.1)
+            # (q0^2 >= -m_k^2 about, reached near m0 = M: the spectator was made heavy above)
             assert J % 2 == 1
-            mass = hi + 0.05
-            while nominal_poly(J, M0, mass, mf[k]) > -rnd.uniform(0.3, 3.0):
-                mass += 0.03
+            negs = [hi + 0.01 * t for t in range(1, int(200 * mf[k])) if nominal_poly(J, M0, hi + 0.01 * t, mf[k]) < -0.2]
+            assert negs, (J, M0, mf)
+            mass = rnd.choice(negs)
         res[pr] = {"pair": pr, "J": J, "P": (1 if J % 2 == 0 else -1), "mass": mass, "width": rnd.uniform(0.03, 0.3)}
     return M0, mf, res
 
